@@ -65,6 +65,36 @@ def exitReason (nbEvalMax atExit : Nat) (tol : Bool) : Bool := tol || decide (at
 /-- "one-dimensional bracketing returns a triple whose middle point has the lowest value" -/
 def bracketOk (k : Bracket α) : Bool := leb k.b.f k.a.f && leb k.b.f k.c.f
 
+/-! ### convergence on strictly convex quadratics (explored only: no theorem)
+
+"On strictly convex quadratic objectives without active constraints every optimiser reaches the unique
+minimiser within a tolerance tied to its stopping tolerance."  For `f = c + b.x + x'Qx`, `Q` symmetric
+positive definite with smallest eigenvalue `lmin` and condition number `kappa`, minimiser `xs`:
+`lmin |x - xs|^2 <= f(x) - f(xs)`.  The exploration judges the objective gap of the value reported
+(`convergedGap`) and, independently, the distance of the *point* reported to the minimiser
+(`convergedDist`), both against `convBound`; `convNontrivial` says whether the bound is below the gap at
+the start, i.e. whether the clause says more than descent does. -/
+
+def maxOf (a b : α) : α := if gtb a b then a else b
+
+/-- `100 n max(kappa, 1) tol max(1, |f*|, |f0 - f*|)` -/
+def convBound (n : Nat) (kappa tol fstar f0 : α) : α :=
+  ofInt 100 * ofInt (Int.ofNat n) * maxOf kappa one * tol * maxOf (maxOf one (abs fstar)) (abs (f0 - fstar))
+
+/-- the value reported is within the bound of the minimum -/
+def convergedGap (value fstar bound : α) : Bool := leb (value - fstar) bound
+
+/-- squared Euclidean distance -/
+def dist2 : List α → List α → α
+  | x :: xs, y :: ys => (x - y) * (x - y) + dist2 xs ys
+  | _, _ => zero
+
+/-- the point reported is within `sqrt(bound / lmin)` of the minimiser -/
+def convergedDist (lmin : α) (pt xs : List α) (bound : α) : Bool := leb (lmin * dist2 pt xs) bound
+
+/-- the bound is below the gap at the start: the clause is not implied by descent -/
+def convNontrivial (f0 fstar bound : α) : Bool := ltb bound (f0 - fstar)
+
 /-! ### the same optimiser object used again
 
 The property's quantifier is over *uses* of an optimiser; an object may be used for several runs, with
